@@ -21,6 +21,7 @@ ENGINES = {
     'E5': 'vf.engines.e5',
     'E6': 'vf.engines.e6',
     'E7': 'vf.engines.e7',
+    'E8': 'vf.engines.e8',
     'E9': 'vf.engines.e9',
 }
 
